@@ -5,6 +5,18 @@ import os
 HOME = os.path.dirname(os.path.dirname(os.path.abspath(__file__)))
 
 CHECKS = {
+    "C01": dict(
+        category="exploration",
+        text="Hypothesis-generated molecules / ensembles (all elements, every enum member, nested attributes incl. bytes, numpy arrays and int keys, NaN/inf "
+             "coordinates, 0 atoms, 0 conformers) are stored in fresh MoleculeLibrary / ConformerLibrary files with four buffer sizes and read back in-session, "
+             "in a later session and through a new handle; an independent field-by-field snapshot decides equality at float32 precision. Legacy (v1) files are "
+             "additionally produced by the harness' own encoder and read through the library. A round-trip oracle over generated inputs is exactly what the "
+             "input-quantified statement needs.",
+        design_ref="DESIGN.md section 5, C01",
+        note="Trusted: vf/chem.py snapshot/compare; enum fields compared by value; sequences compared as sequences; python floats in attributes at float32 "
+             "precision and restricted to |x|<1e30.",
+        technique="round-trip property testing with Hypothesis-generated structures and a field-by-field snapshot oracle",
+    ),
     "C02": dict(
         category="exploration",
         text="Bounded-exhaustive (all op sequences up to length 4/5 over a 14-letter alphabet on two raw UKVFile handles) plus random "
